@@ -16,6 +16,8 @@ CH = "grin_chain::chain::Chain::"
 
 
 def run(c):
+    import r9
+    c.r9("C08")
     CC = PB + "check_compact"
     steps = [
         (PB + "pos_to_rm", None),
